@@ -33,11 +33,19 @@ Record contobs := mkcont {
   t_samples : list sample
 }.
 
+(* a resolver built on the history (rpc/resolver/internal driver): Build runs at the history's (only)
+   Subscribe event; every later event is delivered while or after Build pushes its first state *)
+Record resobs := mkres {
+  q_states : list (list val);      (* addresses of every cc.UpdateState, in call order *)
+  q_fine : bool                    (* no barrier timed out, Build reached UpdateState, one watch stream *)
+}.
+
 Record case := mkcase {
   c_under : list key;
   c_events : list ev;
   c_steps : list stepobs;
-  c_conts : list contobs
+  c_conts : list contobs;
+  c_res : option resobs
 }.
 
 Definition under_of (c : case) (k : key) : bool := existsb (Nat.eqb k) (c_under c).
@@ -144,12 +152,35 @@ Fixpoint hist_rows (u : key -> bool) (s : state) (h : list ev) (os : list stepob
   | _, _ => false
   end.
 
+(* the calls the (single) subscriber receives: up to and including its Subscribe event / afterwards *)
+Fixpoint split_log (u : key -> bool) (s : state) (h : list ev) : list call * list call :=
+  match h with
+  | [] => ([], [])
+  | Subscribe oc oa od :: h' =>
+      let s' := step u true s (Subscribe oc oa od) in
+      let log0 := nth 0 (subs s') [] in
+      (log0, skipn (length log0) (nth 0 (subs (run_from u true s' h')) []))
+  | e :: h' => split_log u (step u true s e) h'
+  end.
+
+Definition res_model (u : key -> bool) (h : list ev) : list (result (list val)) :=
+  let (log0, later) := split_log u init h in
+  r_pushes (rrun build_order log0 ([None; None; None] ++ map (fun c => Some c) later)).
+
+Definition res_ok (u : key -> bool) (h : list ev) (q : resobs) : bool :=
+  q_fine q &&
+  all2 (fun m o => match m with Ok l => set_eqb o l | _ => false end) (res_model u h) (q_states q).
+
 Definition model_ok (c : case) : bool :=
   let u := under_of c in
-  hist_rows u init (c_events c) (c_steps c) &&
-  (is_nil (c_events c) ||
-   all2 (fun log t => list_eqb call_eqb (calls_of (t_ops t)) log) (subs (run u (c_events c))) (c_conts c)) &&
-  forallb cont_ok (c_conts c).
+  match c_res c with
+  | Some q => res_ok u (c_events c) q
+  | None =>
+      hist_rows u init (c_events c) (c_steps c) &&
+      (is_nil (c_events c) ||
+       all2 (fun log t => list_eqb call_eqb (calls_of (t_ops t)) log) (subs (run u (c_events c))) (c_conts c)) &&
+      forallb cont_ok (c_conts c)
+  end.
 
 (* ---------------------------------------------------------------- the property on the observations *)
 Definition restrict (u : key -> bool) (m : amap) : amap := filter (fun kv => u (fst kv)) m.
@@ -256,5 +287,17 @@ Definition events_consistent (h : list ev) : bool :=
 Definition spec_ok (c : case) : bool :=
   let u := under_of c in
   let inf := if events_consistent (c_events c) then infos u [] (false, false) (c_events c) else [] in
+  (* the resolver: once everything is processed the ClientConn has last been told the live values *)
+  match c_res c with
+  | Some q =>
+      match last inf ([], false) with
+      | (m, true) => match List.rev (q_states q) with
+                     | shown :: _ => same_set shown (expected_values false [] (restrict u m))
+                     | [] => false
+                     end
+      | _ => true
+      end
+  | None => true
+  end &&
   steps_spec u [] [] (c_events c) inf (c_steps c) &&
   forallb (fun t => cont_spec u inf (t_excl t) (t_start t) [] (t_ops t) (t_samples t)) (c_conts c).
